@@ -333,3 +333,77 @@ func H_C04_mixedkinds() {
 	verif.Assert(sameMultiset(pairs, want), "multiset")
 	verif.Reach("end")
 }
+
+// H_C04_aliases: the answer does not depend on how the tables are aliased:
+// aliases that are prefixes of one another, multi-letter aliases, either
+// orientation of the ON conjunct.
+func H_C04_aliases() {
+	jt := verif.Choose("type", 3)
+	strat := verif.Choose("strategy", 3)
+	ai := verif.Choose("aliases", 5)
+	cond := verif.Choose("cond", 3) // l = r | r = l | r >= l
+	if strat == 2 && jt != 0 {
+		verif.Assume(false)
+	}
+	pairs := [][2]string{{"x", "y"}, {"t", "t2"}, {"t2", "t"}, {"o", "oi"}, {"ab", "a"}}
+	la, ra := pairs[ai][0], pairs[ai][1]
+	nl, nr := verif.Choose("left", 3), verif.Choose("right", 3)
+	lrows, larr := joinSide(nl, []string{"a"}, false)
+	rrows, rarr := joinSide(nr, []string{"b"}, false)
+	on := []string{la + ".a = " + ra + ".b", ra + ".b = " + la + ".a", ra + ".b >= " + la + ".a"}[cond]
+	got, ok := runQuery(Map{"l": larr, "r": rarr}, "SELECT * FROM l "+la+" "+joinKeyword(jt, strat, false)+" r "+ra+" ON "+on)
+	if !ok {
+		return
+	}
+	// re-key the merged rows to x / y for the shared helpers
+	var norm []any
+	for _, g := range got {
+		m, isMap := g.(Map)
+		if !isMap || len(m) != 2 {
+			verif.Assert(false, "row-shape")
+			return
+		}
+		lv, hasL := m[la]
+		rv, hasR := m[ra]
+		if !hasL || !hasR {
+			verif.Assert(false, "row-shape")
+			return
+		}
+		norm = append(norm, Map{"x": lv, "y": rv})
+	}
+	prs, shaped := joinPairs(norm, lrows, rrows)
+	verif.Assert(shaped, "row-shape")
+	if !shaped {
+		return
+	}
+	c := 0
+	if cond == 2 {
+		c = 8 // x.a >= y.b is cond 8 of the shared table with sides swapped: use a direct reference
+	}
+	var want [][2]int
+	lm, rm := make([]bool, nl), make([]bool, nr)
+	for i, l := range lrows {
+		for j, r := range rrows {
+			hold := f64of(l["a"]) == f64of(r["b"])
+			if c == 8 {
+				hold = f64of(r["b"]) >= f64of(l["a"])
+			}
+			if hold {
+				want = append(want, [2]int{i, j})
+				lm[i], rm[j] = true, true
+			}
+		}
+	}
+	for i := range lrows {
+		if jt == 1 && !lm[i] {
+			want = append(want, [2]int{i, -1})
+		}
+	}
+	for j := range rrows {
+		if jt == 2 && !rm[j] {
+			want = append(want, [2]int{-1, j})
+		}
+	}
+	verif.Assert(sameMultiset(prs, want), "multiset")
+	verif.Reach("end")
+}
